@@ -205,11 +205,24 @@ func TestC15(t *testing.T) {
 					d.Route = append(d.Route, "GroupBy().Aggregate(): rows without columns")
 				}
 			}
+			// the writer is a plain io.Writer, or one that also offers WriteByte/WriteString (same fault plan behind them)
+			rich := rapid.Bool().Draw(t, "richwriter")
 			write := func(w *faults.FailWriter) error {
-				if kind == "tocsv" {
-					return d.QF.ToCSV(w)
+				var dst io.Writer = w
+				rw := &faults.RichFailWriter{FailWriter: *w}
+				if rich {
+					dst = rw
 				}
-				return d.QF.ToJSON(w)
+				var err error
+				if kind == "tocsv" {
+					err = d.QF.ToCSV(dst)
+				} else {
+					err = d.QF.ToJSON(dst)
+				}
+				if rich {
+					*w = rw.FailWriter
+				}
+				return err
 			}
 			ok := &faults.FailWriter{Limit: -1}
 			if err := write(ok); err != nil {
@@ -292,7 +305,10 @@ func TestC15(t *testing.T) {
 		case "readsql":
 			rs := genResultSet(t, 1)
 			serr := rapid.SampledFrom(faults.SQLErrors).Draw(t, "sqlerr")
-			desc := func() string { return fmt.Sprintf("ReadSQL under driver faults (error %v)\n%s", serr, rs.String()) }
+			withArgs := rapid.Bool().Draw(t, "withqueryargs")
+			desc := func() string {
+				return fmt.Sprintf("ReadSQL under driver faults (error %v, query arguments %v)\n%s", serr, withArgs, rs.String())
+			}
 			run := func(plan func(m *faults.MemDB)) qframe.QFrame {
 				m, db := faults.New()
 				defer m.Release(db)
@@ -304,7 +320,13 @@ func TestC15(t *testing.T) {
 				}
 				defer tx.Rollback()
 				var res qframe.QFrame
-				if perr := hx.Safely(func() { res = qframe.ReadSQL(tx, qsql.Query("select * from t")) }); perr != nil {
+				if perr := hx.Safely(func() {
+					if withArgs {
+						res = qframe.ReadSQLWithArgs(tx, []interface{}{int64(7), "x"}, qsql.Query("select * from t where a > ? and b = ?"))
+					} else {
+						res = qframe.ReadSQL(tx, qsql.Query("select * from t"))
+					}
+				}); perr != nil {
 					t.Fatalf("ReadSQL panicked: %v\n%s", perr, desc())
 				}
 				return res
